@@ -23,7 +23,7 @@ from py4hw.base import Logic, Wire, BidirWire, Interface, disconnectWireFromLogi
 
 OBLIGATIONS = [
     # the conflicting call raises and nothing changes
-    'C11.dup_child_rejected', 'C11.dup_wire_rejected', 'C11.second_driver_rejected', 'C11.nonprimitive_out_accepted',
+    'C11.dup_child_rejected', 'C11.dup_wire_rejected', 'C11.wires_clash_rejected', 'C11.forEach_newWire_clash', 'C11.second_driver_rejected', 'C11.nonprimitive_out_accepted',
     'C11.rename_conflict_rejected', 'C11.reparent_conflict_rejected', 'C11.reparentAndRename_conflict_rejected',
     # the earlier driver / child / wire stays (every call, raised or not)
     'C11.source_stable', 'C11.child_stable', 'C11.wire_entry_stable_anygraph', 'C11.move_rejected_unchanged',
@@ -679,7 +679,7 @@ def soup(res, batch, r, n_ops, label):
         no, nw = len(R.objs), len(R.wires)
         if k == 'root':
             S.do(('newLogic', None, r.choice(NAMES), 0))
-        elif k == 'newLogic' or nw == 0 and k != 'wire':
+        elif k == 'newLogic' or nw == 0 and k not in ('wire', 'wires', 'hwsys'):
             p = r.randint(0, no - 1)
             S.do(('newLogic', p, pick_name(r, R.objs[p].children.keys(), (1, 4)), r.choice([0, 0, 1, 1, 2])))
         elif k == 'wire':
@@ -688,7 +688,11 @@ def soup(res, batch, r, n_ops, label):
                   r.choice(['helper', 'helper', 'ctor'])))
         elif k == 'wires':
             p = r.randint(0, no - 1)
-            S.do(('wires', p, r.choice(PREFIXES), r.randint(0, 3), r.choice([1, 1, 8])))
+            pre = r.choice(PREFIXES)
+            arr = sorted({n.rsplit('_', 1)[0] for n in R.objs[p]._wires if '_' in n and n.rsplit('_', 1)[1].isdigit()})
+            if arr and r.chance(1, 3):      # clash with / extend an existing array (or a lone wire named like an element)
+                pre = r.choice(arr)
+            S.do(('wires', p, pre, r.randint(0, 3), r.choice([1, 1, 8])))
         elif k == 'hwsys':
             S.do(('hwsys',))
         elif k in ('addIn', 'addOut', 'addInOut'):
